@@ -1,6 +1,7 @@
 """C14 — Mnemonic sentences follow BIP39 in every language and round-trip."""
-import glob, hashlib, hmac, os, unicodedata
-from core import Case, REPO
+import glob, hashlib, hmac, json, os, unicodedata
+from pathlib import Path
+from core import Case, REPO, VERIF
 
 PROP = 'C14'
 COQ_FILES = ['Extract/C14.v', 'Properties/C14.v']
@@ -20,16 +21,31 @@ ASSUMPTIONS = [
     'change_base correspondence streams over every leading-zero count',
     'word lists: translator/gen_wordlists.py regenerates coq/Gen/GenWordlists.v from bitcoinlib/wordlist/*.txt on every run '
     '(a word = the integer of its UTF-8 bytes); length 2048 and distinctness of all nine lists are proved inside Coq '
-    '(bundled_wordlists_ok, vm_compute); NFKD-normal form, absence of inner white space and that Mnemonic(lang) serves '
-    'exactly the file are checked in Python on every run (wlfacts)',
-    'not modelled: detect_language\'s vote across the nine files (exercised by the detect/ent/seed streams only), '
-    'os.urandom in generate (stubbed), add_checksum=False / includes_checksum=False paths (not BIP39)',
+    '(bundled_wordlists_ok, vm_compute) and so is their equality with the FROZEN copy coq/Model/Bip39Frozen.v '
+    '(bundled_wordlists_are_frozen); the harness and the adapter take every word from the frozen files '
+    'corpus/C14/wordlist/*.txt (english.txt = the BIP39 repository file, sha256 2f5eed53...), never from /repo; that '
+    'Mnemonic(lang) serves exactly the frozen list is checked on every run (wlfacts)',
+    'language detection / sanitising are modelled over word PROFILES (position of a word in each of the nine lists, '
+    'computed by the harness from the frozen lists); the directory order that breaks ties in detect_language is read '
+    'by the harness with Path.iterdir() on the same directory; NFKD idempotence is assumed (sanitize then detect '
+    'normalise twice)',
+    'the library keeps no state between calls: the model answers a session call by call (run_session = map answer); '
+    'the seq stream checks that on the implementation (one process, one Mnemonic object per language or a fresh one '
+    'per call)',
+    'not modelled: os.urandom in generate (stubbed; the number of bytes asked for is checked), HDKey beyond the master '
+    'secret / chain code and the pass-through of from_passphrase arguments (C03)',
 ]
 RULE = ('entropy stream exhaustive over leading-zero patterns (each length 16/20/24/28/32: every k = 0..8*len leading '
         'zero bits then a 1 and random bits; all-zero; all-ones) + seeded random, nine languages; sentences in plain / '
         'NFC / ideographic-space form; single-word substitutions; words outside the list; wrong sentence lengths; '
         'to_seed over ASCII / NFC / NFD / compatibility / astral passphrases; Trezor vectors; change_base on each of '
-        'its five uses over every leading-zero count; non-trivial = implementation returned a value; distinct by request')
+        'its five uses over every leading-zero count; frozen BIP39 vectors (24 Trezor, Japanese #1); every public switch '
+        '(add_checksum, check_on_curve, includes_checksum, validate, generate strength / add_checksum, str or bytes '
+        'arguments, from_passphrase arguments) at non-default values in all nine languages; literal-text sentences in '
+        'plain / NFC / NFKC / U+3000 / U+00A0 / mixed-separator form and malformed spacing; valid sentences made only of '
+        'words shared by two lists, on the objects of both lists and of a third; sessions of 2-6 calls in one process '
+        '(switch off then on, bad then good, two languages, two passwords, cached or fresh objects); '
+        'non-trivial = implementation returned a value; distinct by request')
 
 LANGS = ['chinese_simplified', 'chinese_traditional', 'dutch', 'english', 'french', 'italian', 'japanese',
          'portuguese', 'spanish']
@@ -37,12 +53,34 @@ N_SECP = 0xFFFFFFFFFFFFFFFFFFFFFFFFFFFFFFFEBAAEDCE6AF48A03BBFD25E8CD0364141
 _WL = {}
 
 
+CORPUS = os.path.join(VERIF, 'corpus', 'C14')
+_POS = {}
+
+
 def wl(lang):
+    """the FROZEN BIP39 list (corpus/C14/wordlist), never the repository's file"""
     if lang not in _WL:
-        p = os.path.join(REPO, 'bitcoinlib', 'wordlist', lang + '.txt')
+        p = os.path.join(CORPUS, 'wordlist', lang + '.txt')
         with open(p, encoding='utf8') as f:
             _WL[lang] = [w.strip() for w in f.read().split('\n') if w.strip()]
+        assert len(_WL[lang]) == 2048
+        _POS[lang] = {w: i for i, w in enumerate(_WL[lang])}
     return _WL[lang]
+
+
+def pos(lang, w):
+    wl(lang)
+    return _POS[lang].get(w, -1)
+
+
+def vectors():
+    return json.load(open(os.path.join(CORPUS, 'bip39_vectors.json'), encoding='utf8'))
+
+
+def dir_order():
+    """the order in which detect_language meets the word-list files (Path.iterdir of the same directory)"""
+    names = [p.name[:-4] for p in Path(REPO, 'bitcoinlib', 'wordlist').iterdir() if p.suffix == '.txt']
+    return [LANGS.index(n) for n in names if n in LANGS]
 
 
 # ---------------------------------------------------------------- independent BIP39 (from the BIP text)
@@ -127,6 +165,126 @@ def word_tokens(lang, idx, sub):
     return out
 
 
+# ---------------------------------------------------------------- literal text, profiles, independent BIP32 master
+SEPS = {'plain': ' ', 'ideo': '\u3000', 'nbsp': '\u00a0', 'emsp': '\u2003'}
+GOOD_FORMS = ['plain', 'nfc', 'nfkc', 'ideo', 'nbsp', 'emsp', 'nfc_ideo', 'mixsep']
+BAD_FORMS = ['dblspace', 'lead', 'trail', 'tab', 'nl', 'comma', 'glued']
+
+
+def render(words, form, rng=None):
+    """a sentence as a user could type it; the GOOD forms all have the same NFKD form"""
+    words = list(words)
+    if form in SEPS:
+        return SEPS[form].join(words)
+    plain = ' '.join(words)
+    if form == 'nfc':
+        return unicodedata.normalize('NFC', plain)
+    if form == 'nfkc':
+        return unicodedata.normalize('NFKC', plain)
+    if form == 'nfc_ideo':
+        return unicodedata.normalize('NFC', '\u3000'.join(words))
+    if form == 'mixsep':
+        return ''.join(w + (rng.choice(list(SEPS.values())) if i + 1 < len(words) else '') for i, w in enumerate(words))
+    k = rng.randrange(len(words) - 1) if len(words) > 1 else 0
+    if form == 'dblspace':
+        return ' '.join(words[:k + 1]) + '  ' + ' '.join(words[k + 1:])
+    if form == 'tab':
+        return ' '.join(words[:k + 1]) + '\t' + ' '.join(words[k + 1:])
+    if form == 'glued':
+        return ' '.join(words[:k + 1]) + ' '.join(words[k + 1:])
+    if form == 'lead':
+        return ' ' + plain
+    if form == 'trail':
+        return plain + ' '
+    if form == 'nl':
+        return plain + '\n'
+    if form == 'comma':
+        return ', '.join(words)
+    raise ValueError(form)
+
+
+def text_words(txt):
+    """what sanitize_mnemonic works on: the NFKD form split at single spaces"""
+    return nfkd(txt).split(' ')
+
+
+def profs(words):
+    return ';'.join(','.join(str(pos(l, w)) for l in LANGS) for w in words)
+
+
+def idx_in(lang, words):
+    return [pos(lang, w) for w in words]
+
+
+def in_one_list(words):
+    return [l for l in LANGS if all(pos(l, w) >= 0 for w in words)]
+
+
+B58 = '123456789ABCDEFGHJKLMNPQRSTUVWXYZabcdefghijkmnopqrstuvwxyz'
+
+
+def b58check(b):
+    b = b + hashlib.sha256(hashlib.sha256(b).digest()).digest()[:4]
+    n, out = int.from_bytes(b, 'big'), ''
+    while n:
+        n, r = divmod(n, 58)
+        out = B58[r] + out
+    return '1' * (len(b) - len(b.lstrip(b'\0'))) + out
+
+
+def master_of_seed(seed):
+    return hmac.new(b'Bitcoin seed', seed, hashlib.sha512).digest()
+
+
+def xprv_of_seed(seed):
+    """BIP32 serialisation of the master private key, mainnet version 0488ADE4"""
+    i = master_of_seed(seed)
+    return b58check(bytes.fromhex('0488ade4') + b'\0' * 9 + i[32:] + b'\0' + i[:32])
+
+
+def subrequests(req):
+    """token lists of the calls of a request (a seq request has several)"""
+    t = req.split(' ')
+    if t[0] != 'seq':
+        return [t]
+    out, cur = [], []
+    for x in t[2:]:
+        if x == '|':
+            out.append(cur)
+            cur = []
+        else:
+            cur.append(x)
+    out.append(cur)
+    return out
+
+
+def shared_sentence(rng, a, b, valid_in, nwords):
+    """a sentence valid in list `valid_in` (a or b) all of whose words are in BOTH lists a and b; None if the search
+    gives up.  The last word carries 11 - nwords/3 entropy bits and the checksum: try every completion."""
+    both = sorted(set(wl(a)) & set(wl(b)), key=lambda w: pos(valid_in, w))
+    ok = set(both)
+    cs = nwords // 3
+    for _ in range(4000):
+        pre = [pos(valid_in, rng.choice(both)) for _ in range(nwords - 1)]
+        v = 0
+        for i in pre:
+            v = (v << 11) | i
+        lasts = list(range(1 << (11 - cs)))
+        rng.shuffle(lasts)
+        for last in lasts:
+            ent = ((v << (11 - cs)) | last).to_bytes(nwords * 4 // 3, 'big')
+            fin = (last << cs) | (hashlib.sha256(ent).digest()[0] >> (8 - cs))
+            if wl(valid_in)[fin] in ok and py_fromhex(ent) is None:
+                idx = pre + [fin]
+                assert bip39_indices(ent) == idx
+                return [wl(valid_in)[i] for i in idx]
+    return None
+
+
+SHARED_PAIRS = [('chinese_simplified', 'chinese_traditional'), ('dutch', 'english'), ('english', 'french'),
+                ('dutch', 'french'), ('dutch', 'spanish'), ('dutch', 'italian'), ('dutch', 'portuguese')]
+
+
 # ---------------------------------------------------------------- generators
 PASSWORDS = [
     '', 'TREZOR', 'password with spaces', 'café Å',            # ASCII; NFC-composed
@@ -179,8 +337,10 @@ def gen_cases(rng, tier):
     add = lambda kind, req: cs.append(Case(kind, req))
 
     # --- word-list facts and the protocol vectors first
+    add('wlfacts', 'wlfiles')
     for lang in LANGS:
         add('wlfacts', 'wlfacts ' + lang)
+    gen_vector_cases(add)
     for e, s, seed in TREZOR:
         idx = bip39_indices(bytes.fromhex(e))
         assert plain_sentence('english', idx) == s, 'corpus vector disagrees with the independent oracle'
@@ -332,15 +492,285 @@ def gen_cases(rng, tier):
             add('detect', 'detect %s %s' % (lang, szs(idx)))
         for _ in range(30 if big else 6):
             add('detect', 'detect %s %s' % (lang, szs(bip39_indices(safe_entropy(rng, rng.choice([16, 20, 24, 28, 32]))))))
-    return cs
+    gen_switch_cases(rng, big, add)
+    gen_text_cases(rng, big, add)
+    gen_shared_cases(rng, big, add)
+    gen_session_cases(rng, big, add)
+    # emission order: word-list facts and vectors, then the self-contained sessions (so that state kept between calls
+    # is first reported on a request that reproduces alone), then everything else in generation order
+    head = [c for c in cs if c.kind in ('wlfacts', 'vector')]
+    sess = [c for c in cs if c.kind in ('session', 'shared_seq')]
+    rest = [c for c in cs if c.kind not in ('wlfacts', 'vector', 'session', 'shared_seq')]
+    return head + sess + rest
+
+
+# ---------------------------------------------------------------- frozen vectors, switches, literal text, sessions
+def gen_vector_cases(add):
+    """corpus/C14/bip39_vectors.json through the default-argument calls; each vector is first checked against the
+    independent oracle (a corrupted corpus stops the run, it does not weaken the check)"""
+    v = vectors()
+    for e, sent, seed, xprv in v['english']:
+        assert plain_sentence('english', bip39_indices(bytes.fromhex(e))) == sent, 'corpus vector vs independent BIP39'
+        assert bip39_seed(sent, 'TREZOR').hex() == seed and xprv_of_seed(bytes.fromhex(seed)) == xprv
+        add('vector', 'tmn english 1 1 h ' + e)
+        add('vector', 'tmn default 1 1 b ' + hx(bytes.fromhex(e)))          # Mnemonic() without a language
+        add('vector', 'tent default d s ' + cps(sent))
+        add('vector', 'tent english d s ' + cps(sent))
+        add('vector', 'tseed english d s s %s %s' % (cps(sent), cps('TREZOR')))
+        add('vector', 'thd english %s %s bitcoin bip32 1 legacy 0' % (cps(sent), cps('TREZOR')))
+    for e, sent, pw, seed, xprv in v['japanese']:
+        assert text_words(sent) == [wl('japanese')[i] for i in bip39_indices(bytes.fromhex(e))]
+        assert bip39_seed(sent, pw).hex() == seed and xprv_of_seed(bytes.fromhex(seed)) == xprv
+        assert sent != nfkd(sent) and pw != nfkd(pw)
+        add('vector', 'tmn japanese 1 0 h ' + e)
+        add('vector', 'tent japanese d s ' + cps(sent))
+        add('vector', 'tent japanese d b ' + cps(sent))
+        for val in 'd10':
+            add('vector', 'tseed japanese %s s s %s %s' % (val, cps(sent), cps(pw)))
+        add('vector', 'tseed japanese d b b %s %s' % (cps(sent), cps(pw)))
+        add('vector', 'tseed english 0 s s %s %s' % (cps(sent), cps(pw)))      # another object, no validation
+        add('vector', 'thd japanese %s %s d' % (cps(sent), cps(pw)))
+
+
+def gen_switch_cases(rng, big, add):
+    """to_mnemonic(add_checksum, check_on_curve), generate(strength, add_checksum) at non-default values"""
+    for li, lang in enumerate(LANGS):
+        full = big or lang == 'english'
+        for L in (16, 20, 24, 28, 32):
+            for _ in range(6 if big else 1):
+                e = safe_entropy(rng, L)
+                for a, c in (('0', '0'), ('0', '1'), ('1', '1'), ('1', '0')):
+                    add('mn_switch', 'tmn %s %s %s b %s' % (lang, a, c, hx(e)))
+                add('mn_switch', 'tmn %s 0 0 h %s' % (lang, e.hex()))
+            # without checksum the leading zero bits are simply lost: every boundary of 11 and 8
+            ks = [0, 1, 7, 8, 9, 10, 11, 12, 15, 16, 21, 22, 23, 33, 8 * L - 12, 8 * L - 11, 8 * L - 1]
+            for k in (range(8 * L) if (big and lang == 'english') else ks):
+                if full or (k + li) % 3 == 0:
+                    rest = 8 * L - k - 1
+                    e = ((1 << rest) | (rng.getrandbits(rest) if rest else 0)).to_bytes(L, 'big')
+                    if py_fromhex(e) is None:
+                        add('mn_switch', 'tmn %s 0 0 b %s' % (lang, hx(e)))
+        for e in (bytes(16), bytes(32), b'\xff' * 32, N_SECP.to_bytes(32, 'big'), (N_SECP - 1).to_bytes(32, 'big'),
+                  b'', b'\x00', b'\x01', b'\x07\xff', b'\x08\x00', b'\x00\x00\x08\x00', b'\xff' * 11, b'\xff' * 33,
+                  safe_entropy(rng, 5), safe_entropy(rng, 40)):
+            for a, c in (('0', '0'), ('0', '1')):
+                if full or rng.random() < 0.5:
+                    add('mn_switch', 'tmn %s %s %s b %s' % (lang, a, c, hx(e)))
+        # generate: every strength that is a multiple of 32 up to 256, both add_checksum values, bounds
+        for strength in (32, 64, 96, 128, 160, 192, 224, 256):
+            for a in ('d', '1', '0'):
+                if full or a != '1' or strength in (32, 256):
+                    data = b'\x01' + safe_entropy(rng, strength // 8 + 7)
+                    add('generate', 'tgen %s %d %s %s' % (lang, strength, a, hx(data)))
+        for strength, data in ((0, b'\x11' * 8), (-32, b'\x11' * 8), (8, b'\x11' * 8), (100, b'\x11' * 40), (129, b'\x11' * 40),
+                               (127, b'\x11' * 40), (288, bytes(4) + b'\x01' + safe_entropy(rng, 35)),
+                               (288, b'\x01' + safe_entropy(rng, 39)), (512, bytes(33) + safe_entropy(rng, 35)),
+                               (128, bytes(16) + b'\x01' * 8), (256, b'\xff' * 40)):
+            if full or rng.random() < 0.4:
+                add('generate', 'tgen %s %d %s %s' % (lang, strength, rng.choice('d10'), hx(data)))
+
+
+def _valid_words(rng, lang, L):
+    return [wl(lang)[i] for i in bip39_indices(safe_entropy(rng, L))]
+
+
+def _bad_checksum(rng, lang, words):
+    """same length, every word in the list, checksum wrong"""
+    while True:
+        w = list(words)
+        w[rng.randrange(len(w))] = wl(lang)[rng.randrange(2048)]
+        if bip39_entropy(idx_in(lang, w), strict=False) is None:
+            return w
+
+
+def gen_text_cases(rng, big, add):
+    """sentences as literal text in every spelling, every switch of to_entropy / to_seed / sanitize / detect /
+    from_passphrase, str and bytes arguments"""
+    for li, lang in enumerate(LANGS):
+        other = LANGS[(li + 3) % len(LANGS)]
+        for Li, L in enumerate((16, 20, 24, 28, 32) if big else (16, 32)):
+            good = _valid_words(rng, lang, L)
+            bad = _bad_checksum(rng, lang, good)
+            foreign = _valid_words(rng, other, L)
+            mixed = list(good)
+            mixed[rng.randrange(len(mixed))] = next(w for w in foreign if pos(lang, w) < 0)
+            for fi, form in enumerate(GOOD_FORMS):
+                if not big and (fi + li + Li) % 2:
+                    continue            # quick: every spelling once per language, alternating sentence length
+                txt = render(good, form, rng)
+                add('ent_text', 'tent %s d %s %s' % (lang, rng.choice('sb'), cps(txt)))
+                add('ent_text', 'tent %s 0 %s %s' % (lang, rng.choice('sb'), cps(txt)))
+                if big or form in ('nfc', 'ideo', 'mixsep') or rng.random() < 0.3:
+                    add('ent_text', 'tent %s 1 s %s' % (lang, cps(txt)))
+                    add('ent_text', 'tent %s d s %s' % (lang, cps(render(bad, form, rng))))
+                    add('ent_text', 'tent %s 0 s %s' % (lang, cps(render(bad, form, rng))))
+                pw = rng.choice(PASSWORDS)
+                for val in 'd10':
+                    if big or val == '0' or rng.random() < 0.4:
+                        add('seed_text', 'tseed %s %s %s %s %s %s' % (lang, val, rng.choice('sb'), rng.choice('sb'), cps(txt), cps(pw)))
+                add('seed_text', 'tseed %s 0 s s %s %s' % (lang, cps(render(bad, form, rng)), cps(pw)))
+                if big or rng.random() < 0.3:
+                    add('seed_text', 'tseed %s 1 s s %s %s' % (lang, cps(render(bad, form, rng)), cps(pw)))
+                add('sanitize', 'tsan %s %s %s' % (rng.choice([lang, other]), rng.choice('sb'), cps(txt)))
+                if big or rng.random() < 0.4:
+                    add('sanitize', 'tsan %s s %s' % (lang, cps(render(bad, form, rng))))
+                add('detect_text', 'tdet %s %s %s' % (rng.choice(['static', lang, other]), rng.choice('sb'), cps(txt)))
+            for fi, form in enumerate(BAD_FORMS):
+                if not big and (fi + li + Li) % 2:
+                    continue
+                txt = render(good, form, rng)
+                add('ent_malformed', 'tent %s %s s %s' % (lang, rng.choice('d0'), cps(txt)))
+                add('seed_malformed', 'tseed %s %s s s %s %s' % (lang, rng.choice('d0'), cps(txt), cps('pw')))
+                if big or rng.random() < 0.5:
+                    add('sanitize', 'tsan %s s %s' % (lang, cps(txt)))
+                    add('detect_text', 'tdet static s %s' % cps(txt))
+            # a foreign word among ours; a whole foreign sentence on our object; ours on a foreign object
+            for ws in (mixed, foreign):
+                txt = render(ws, rng.choice(['plain', 'nfc', 'ideo']), rng)
+                for fl in ('d0' if big else rng.choice('d0')):
+                    add('ent_foreign', 'tent %s %s s %s' % (lang, fl, cps(txt)))
+                    add('seed_foreign', 'tseed %s %s s s %s %s' % (lang, '0' if fl == 'd' and not big else fl, cps(txt), cps('x')))
+                add('sanitize', 'tsan %s s %s' % (lang, cps(txt)))
+                add('detect_text', 'tdet static s %s' % cps(txt))
+            # the vote: k of our words replaced by words only the other list has
+            for k in ((1, len(good) // 2, len(good) - 1) if big else (rng.choice([1, len(good) // 2, len(good) - 1]),)):
+                ws = list(good)
+                for p_ in rng.sample(range(len(ws)), k):
+                    ws[p_] = next(w for w in rng.sample(wl(other), 50) if pos(lang, w) < 0)
+                add('detect_text', 'tdet static s %s' % cps(' '.join(ws)))
+            add('detect_text', 'tdet static s %s' % cps('zzzz qqqq'))
+            add('detect_text', 'tdet static s -')
+            add('sanitize', 'tsan %s s -' % lang)
+            add('ent_malformed', 'tent %s 0 s -' % lang)
+        # sentences of other lengths with and without the checksum switch
+        for n in ((1, 2, 3, 6, 9, 11, 13, 25, 27) if big else (1, 3, 11, 13)):
+            ws = [wl(lang)[rng.randrange(2048)] for _ in range(n)]
+            add('ent_length', 'tent %s 0 s %s' % (lang, cps(' '.join(ws))))
+            add('ent_length', 'tent %s d s %s' % (lang, cps(' '.join(ws))))
+            ws[0] = wl(lang)[0]
+            add('ent_length', 'tent %s 0 s %s' % (lang, cps(' '.join(ws))))
+    # from_passphrase: every argument away from its default (the sentence must be English: known finding otherwise)
+    nets = ['bitcoin', 'testnet', 'litecoin', 'dogecoin', 'regtest', 'signet', 'litecoin_testnet']
+    for i in range(60 if big else 14):
+        good = _valid_words(rng, 'english', rng.choice([16, 20, 24, 28, 32]))
+        txt = render(good, rng.choice(GOOD_FORMS), rng)
+        pw = rng.choice(PASSWORDS)
+        if i % 7 == 0:
+            add('hdkey_args', 'thd english %s %s d' % (cps(txt), cps(pw)))
+        else:
+            add('hdkey_args', 'thd english %s %s %s %s %s %s %s' % (
+                cps(txt), cps(pw), rng.choice(nets), rng.choice(['bip32', 'bip32', 'single']), rng.choice('01'),
+                rng.choice(['legacy', 'p2sh-segwit', 'segwit']), rng.choice('01')))
+        if i % 5 == 0:
+            add('hdkey_args', 'thd english %s %s bitcoin bip32 1 legacy 0' % (cps(render(_bad_checksum(rng, 'english', good), 'plain')), cps(pw)))
+    for lang in ('spanish', 'japanese', 'chinese_simplified'):
+        add('hdkey_args', 'thd %s %s - d' % (lang, cps(' '.join(_valid_words(rng, lang, 16)))))
+
+
+def gen_shared_cases(rng, big, add):
+    """valid sentences ALL of whose words are in two bundled lists: the result must depend on the object's list only"""
+    for a, b in SHARED_PAIRS:
+        third = next(l for l in LANGS if l not in (a, b) and l not in ('chinese_simplified', 'chinese_traditional'))
+        for valid_in in (a, b):
+            for nwords in ((12, 15, 18, 21, 24) if big else (12, 24)):
+                for rep in range(3 if big else 1):
+                    ws = shared_sentence(rng, a, b, valid_in, nwords)
+                    if ws is None:
+                        continue
+                    txt = cps(render(ws, rng.choice(['plain', 'plain', 'nfc', 'ideo']), rng))
+                    for obj in (a, b):
+                        add('shared_ent', 'tent %s d s %s' % (obj, txt))
+                        add('shared_ent', 'tent %s 0 s %s' % (obj, txt))
+                        add('shared_seed', 'tseed %s %s s s %s %s' % (obj, rng.choice('d1'), txt, cps(rng.choice(PASSWORDS))))
+                        add('shared_seed', 'tseed %s 0 s s %s %s' % (obj, txt, cps(rng.choice(PASSWORDS))))
+                    add('shared_ent', 'tent %s d s %s' % (third, txt))
+                    add('shared_san', 'tsan %s s %s' % (rng.choice([a, b, third]), txt))
+                    add('shared_det', 'tdet static s %s' % txt)
+                    if valid_in == 'english':
+                        add('shared_hdkey', 'thd english %s %s d' % (txt, cps(rng.choice(PASSWORDS))))
+                    other = b if valid_in == a else a
+                    add('shared_seq', 'seq %s tent %s 0 s %s | tent %s d s %s | tent %s d s %s | tseed %s d s s %s - | tent %s 0 s %s'
+                        % (rng.choice(['cached', 'fresh']), other, txt, valid_in, txt, other, txt, valid_in, txt, valid_in, txt))
+                    # eleven shared words and one that only `valid_in` has: no tie any more
+                    own = [w for w in wl(valid_in) if pos(other, w) < 0]
+                    for _ in range(200):
+                        ws2 = list(ws)
+                        ws2[rng.randrange(len(ws2) - 1)] = rng.choice(own)
+                        if bip39_entropy(idx_in(valid_in, ws2), strict=True) is not None:
+                            break
+                    for obj in (a, b):
+                        add('shared_ent', 'tent %s d s %s' % (obj, cps(' '.join(ws2))))
+                    add('shared_det', 'tdet static s %s' % cps(' '.join(ws2)))
+
+
+def gen_session_cases(rng, big, add):
+    """several calls in ONE process on one object: the answer to a call must not depend on the calls before it"""
+    for li, lang in enumerate(LANGS):
+        for rep in range(8 if big else 2):
+            L = rng.choice([16, 20, 24, 28, 32])
+            ent = safe_entropy(rng, L)
+            good = [wl(lang)[i] for i in bip39_indices(ent)]
+            bad = _bad_checksum(rng, lang, good)
+            good2 = _valid_words(rng, lang, L)
+            g, b_, g2 = cps(' '.join(good)), cps(' '.join(bad)), cps(' '.join(good2))
+            gi, gn = cps(render(good, 'ideo')), cps(render(good, 'nfc'))
+            pw1, pw2 = cps(rng.choice(PASSWORDS[1:])), cps(rng.choice(PASSWORDS[1:]))
+            E = lambda fl, t_: 'tent %s %s s %s' % (lang, fl, t_)
+            S = lambda fl, t_, pw: 'tseed %s %s s s %s %s' % (lang, fl, t_, pw)
+            M = lambda a, c, e: 'tmn %s %s %s b %s' % (lang, a, c, hx(e))
+            sessions = [
+                [E('0', g), E('d', g), S('d', g, pw1)],                       # switch off, then the validating calls
+                [E('0', b_), E('d', b_), S('d', b_, pw1), S('0', b_, pw1), S('1', b_, pw1)],
+                [E('d', g), E('0', g), E('d', g), E('1', g)],
+                [S('0', b_, pw1), S('d', b_, pw1), E('d', b_)],               # accepted without validation, then refused
+                [S('d', g, pw1), S('d', g, pw2), S('d', g, '-'), S('d', g, pw1)],   # same sentence, other passwords
+                [E('d', g), E('d', g2), E('d', g), E('d', b_), E('d', g)],    # other sentences in between
+                [E('d', gi), E('d', g), E('d', gn), S('0', gi, pw1), S('d', gn, pw1)],   # spellings of one sentence
+                [M('0', '0', ent), M('1', '0', ent), M('1', '1', ent), M('0', '1', ent), E('d', g)],
+                [M('1', '0', ent), M('0', '0', ent), M('1', '0', ent)],
+                ['tsan %s s %s' % (lang, b_), E('d', b_), 'tdet static s %s' % g, E('d', g)],
+                ['tgen %s %d 0 %s' % (lang, 8 * L, hx(ent + b'\x55' * 8)), 'tgen %s %d d %s' % (lang, 8 * L, hx(ent + b'\x55' * 8)),
+                 E('d', g)],
+            ]
+            if lang == 'english':
+                sessions.append([E('0', b_), 'thd english %s %s d' % (b_, pw1), 'thd english %s %s d' % (g, pw1),
+                                 E('0', g), 'thd english %s %s bitcoin bip32 1 legacy 0' % (g, pw1)])
+            else:
+                # the same (foreign) sentence on the English object and on ours
+                sessions.append(['tent english d s %s' % g, E('d', g), 'tseed english 0 s s %s %s' % (g, pw1), S('d', g, pw1)])
+            for j, ops in enumerate(sessions):
+                if big or (j + rep + li) % 2 == 0 or j < 2:
+                    add('session', 'seq %s %s' % ('fresh' if (j + rep) % 3 == 0 else 'cached', ' | '.join(ops)))
 
 
 # ---------------------------------------------------------------- model side
-def model_req(c):
-    t = c.req.split(' ')
+_ORDER = []
+
+
+def order_s():
+    if not _ORDER:
+        _ORDER.append(','.join(str(i) for i in dir_order()) or '-')
+    return _ORDER[0]
+
+
+def _gen_data(t):
+    """tgen <lang> <strength> <add|d> <urandom hex>: the bytes generate() should convert, None when it must refuse"""
+    strength, data = int(t[2]), unhx(t[4])
+    if strength % 32 or strength <= 0 or strength // 8 > len(data):
+        return None
+    return data[:strength // 8]
+
+
+def _lang_default(t):
+    """Mnemonic() without an argument is the English object"""
+    return [t[0], 'english'] + list(t[2:]) if len(t) > 1 and t[1] == 'default' else t
+
+
+def model_one(t):
+    t = _lang_default(t)
     k = t[0]
     if k in ('cb10_2', 'cb256_2', 'cb2_2048', 'cb2048_256', 'cb2_256', 'to_bytes'):
-        return c.req
+        return ' '.join(t)
     if k in ('mn', 'mncurve'):
         return 'mn ' + t[2]
     if k == 'mnhex':
@@ -361,26 +791,74 @@ def model_req(c):
             toks, sent = word_tokens(lang, idx, sub), plain_sentence(lang, idx, sub)
         return 'seed %s %s %s %s' % (szs(toks), hx(nfkd(sent).encode('utf8')), hx(pw.encode('utf8')),
                                      hx(nfkd(pw).encode('utf8')))
+    # ---- the calls with explicit switches: Model/Bip39.v mreq
+    if k == 'tmn':
+        data = t[5].encode('ascii') if t[4] == 'h' else unhx(t[5])
+        return 'xmn %s %s %s' % (t[2], t[3], hx(data))
+    if k == 'tgen':
+        data = _gen_data(t)
+        return 'xmn %s 1 %s' % ('0' if t[3] == '0' else '1', hx(data) if data is not None else '-')
+    if k == 'tent':
+        return 'xent %s %d %s %s' % (order_s(), LANGS.index(t[1]), '0' if t[2] == '0' else '1', profs(text_words(text(t[4]))))
+    if k in ('tseed', 'thd'):
+        if k == 'tseed':
+            self_, val, txt, pw = t[1], t[2], text(t[5]), text(t[6])
+        else:
+            self_, val, txt, pw = 'english', '1', text(t[2]), text(t[3])
+        return 'xseed %s %d %s %s %s %s %s' % (order_s(), LANGS.index(self_), '0' if val == '0' else '1',
+                                               profs(text_words(txt)), hx(nfkd(txt).encode('utf8')),
+                                               hx(pw.encode('utf8')), hx(nfkd(pw).encode('utf8')))
+    if k == 'tsan':
+        return 'xsan %s %s' % (order_s(), profs(text_words(text(t[3]))))
+    if k == 'tdet':
+        return 'xdet %s %s' % (order_s(), profs(text_words(text(t[3]))))
     return 'to_bytes -'          # hdkey / detect / wlfacts: implementation-only kinds
 
 
-def same(c, io, mo):
-    k = c.req.split(' ')[0]
-    if k in ('hdkey', 'detect', 'wlfacts'):
+def model_req(c):
+    t = c.req.split(' ')
+    if t[0] == 'seq':
+        return 'seq ' + ' | '.join(model_one(q) for q in subrequests(c.req))
+    return model_one(t)
+
+
+def same_one(t, io, mo):
+    t = _lang_default(t)
+    k = t[0]
+    if k in ('hdkey', 'detect', 'wlfacts', 'wlfiles'):
         return True
-    if k == 'gen' and c.req.split(' ')[2] == '100':
+    if k == 'gen' and t[2] == '100':
         return io.startswith('ERR')
+    if k == 'tgen':
+        io = io.split(' asked=')[0]
+    if k == 'thd':
+        io = io.split(' ')[0] if not io.startswith('ERR') else io
     if io.startswith('ERR') or mo.startswith('ERR'):
         if k == 'mncurve' and io.startswith('ERR') and not mo.startswith('ERR'):
-            v = int.from_bytes(unhx(c.req.split(' ')[2]), 'big')
+            v = int.from_bytes(unhx(t[2]), 'big')
             return not 0 < v < N_SECP
         return io.startswith('ERR') and mo.startswith('ERR')
-    if k in ('seed', 'seedw'):
+    if k in ('seed', 'seedw', 'tseed', 'thd'):
         q = mo.split(' ')
         if q[0] != 'Q':
             return False
-        return hashlib.pbkdf2_hmac('sha512', unhx(q[1]), unhx(q[2]), 2048).hex() == io
+        seed = hashlib.pbkdf2_hmac('sha512', unhx(q[1]), unhx(q[2]), 2048)
+        return (master_of_seed(seed) if k == 'thd' else seed).hex() == io
+    if k == 'tsan':
+        return io.startswith('S ') and mo == 'OK'
+    if k == 'tdet':
+        return mo.startswith('L') and LANGS[int(mo[1:])] == io
     return io == mo
+
+
+def same(c, io, mo):
+    t = c.req.split(' ')
+    if t[0] != 'seq':
+        return same_one(t, io, mo)
+    subs, ios, mos = subrequests(c.req), io.split(' | '), mo.split(' | ')
+    if not len(subs) == len(ios) == len(mos):
+        return False
+    return all(same_one(q, a, b) for q, a, b in zip(subs, ios, mos))
 
 
 def is_trivial(c, out):
@@ -396,13 +874,148 @@ def _entropy_of_req(t):
     return unhx(t[2])
 
 
+def _mnemonic_verdict(e, add_checksum, check_on_curve, out, what):
+    """to_mnemonic / generate on entropy bytes e"""
+    refused_ok = check_on_curve and not 0 < int.from_bytes(e, 'big') < N_SECP     # documented refusal behind the switch
+    if add_checksum:
+        exp = bip39_indices(e)
+        if exp is None:
+            return None if out.startswith('ERR') else '%s: entropy of %d bytes accepted: %s' % (what, len(e), out[:60])
+        if out.startswith('ERR'):
+            return None if refused_ok else '%s refused a %d-byte entropy: %s' % (what, len(e), out)
+        return None if out == szs(exp) else '%s: sentence is not the BIP39 sentence: got %s, BIP39 %s' % (what, out[:90], szs(exp)[:90])
+    # without checksum (not BIP39): the words are the base-2048 digits of the number
+    if len(e) == 0:
+        return None if out.startswith('ERR') else '%s: empty entropy accepted' % what
+    if out.startswith('ERR'):
+        return None if refused_ok else '%s (no checksum) refused a %d-byte entropy: %s' % (what, len(e), out)
+    if out.startswith('RAW'):
+        return '%s (no checksum): words outside the list: %s' % (what, out[:60])
+    idx = zs(out.split(' ')[0])
+    v = 0
+    for i in idx:
+        v = v * 2048 + i
+    ok = len(idx) >= 1 and all(0 <= i < 2048 for i in idx) and v == int.from_bytes(e, 'big') and ' !form' not in out
+    return None if ok else '%s (no checksum): the words do not spell the entropy number: %s' % (what, out[:80])
+
+
+def _entropy_verdict(idx, out):
+    """to_entropy with the checksum on a sentence given as list positions (-1 = not in the list)"""
+    strict = bip39_entropy(idx, strict=True)
+    general = bip39_entropy(idx, strict=False)
+    if strict is not None:
+        return None if out == hx(strict) else 'valid sentence: to_entropy gives %s, BIP39 entropy %s' % (out[:70], hx(strict))
+    if general is not None:
+        # 3/6/9/27/30... words with a matching checksum: outside BIP39's sizes, accepted by the library (observation)
+        return None if (out == hx(general) or out.startswith('ERR')) else 'wrong entropy %s for a generalised sentence' % out[:70]
+    return None if out.startswith('ERR') else 'sentence with bad checksum / unknown word / bad length accepted: %s' % out[:70]
+
+
+def check_text(t, out):
+    """the calls with explicit switches on literal text; oracle: frozen lists + BIP39 text + unicodedata NFKD"""
+    k = t[0]
+    if k == 'tmn':
+        e = bytes.fromhex(t[5]) if t[4] == 'h' else unhx(t[5])
+        return _mnemonic_verdict(e, t[2] == '1', t[3] == '1', out, 'to_mnemonic')
+    if k == 'tgen':
+        e = _gen_data(t)
+        if e is None:
+            return None if out.startswith('ERR') else 'generate accepted strength %s' % t[2]
+        if not out.startswith('ERR') and out.split(' asked=')[1] != str(len(e)):
+            return 'generate(%s) asked os.urandom for %s bytes' % (t[2], out.split(' asked=')[1])
+        return _mnemonic_verdict(e, t[3] != '0', True, out.split(' asked=')[0], 'generate(%s)' % t[2])
+    if k == 'tent':
+        idx = idx_in(t[1], text_words(text(t[4])))
+        if t[2] != '0':
+            return _entropy_verdict(idx, out)
+        if any(i < 0 for i in idx):
+            return None if out.startswith('ERR') else 'to_entropy(includes_checksum=False) accepted a word outside the list: %s' % out[:60]
+        if out.startswith('ERR'):
+            return 'to_entropy(includes_checksum=False) refused a sentence of list words: ' + out
+        v = 0
+        for i in idx:
+            v = v * 2048 + i
+        b = unhx(out)
+        ok = int.from_bytes(b, 'big') == v and len(b) >= len(idx) * 4 // 3
+        return None if ok else 'to_entropy(includes_checksum=False): %s does not spell the number of the words' % out[:70]
+    if k == 'tseed':
+        txt, pw = text(t[5]), text(t[6])
+        words = text_words(txt)
+        idx = idx_in(t[1], words)
+        seed = bip39_seed(txt, pw).hex()
+        if t[2] != '0':
+            if bip39_entropy(idx, strict=True) is not None:
+                return None if out == seed else 'to_seed is not the BIP39 seed: %s.. vs %s..' % (out[:32], seed[:32])
+            if bip39_entropy(idx, strict=False) is not None:
+                return None if out in (seed,) or out.startswith('ERR') else 'wrong seed for a generalised sentence'
+            return None if out.startswith('ERR') else 'seed produced for an invalid sentence'
+        # validate=False: no checksum test, but still only words of one list, and still the BIP39 seed of the text
+        if out.startswith('ERR'):
+            return 'to_seed(validate=False) refused a sentence of list words: ' + out if all(i >= 0 for i in idx) else None
+        if not in_one_list(words):
+            return 'to_seed(validate=False) accepted words outside every list'
+        return None if out == seed else 'to_seed(validate=False) is not the BIP39 seed of the sentence: %s.. vs %s..' % (out[:32], seed[:32])
+    if k == 'tsan':
+        txt = text(t[3])
+        if not in_one_list(text_words(txt)):
+            return None if out.startswith('ERR') else 'sanitize_mnemonic accepted words that no single list contains'
+        return None if out == 'S ' + cps(nfkd(txt)) else 'sanitize_mnemonic does not return the NFKD sentence: ' + out[:80]
+    if k == 'tdet':
+        words = text_words(text(t[3]))
+        cnt = {l: sum(1 for w in words if pos(l, w) >= 0) for l in LANGS}
+        if max(cnt.values()) == 0:
+            return None if out.startswith('ERR') else 'detect_language answered %s for words of no list' % out
+        return None if cnt.get(out, -1) == max(cnt.values()) else 'detect_language says %s, most words are in %s' % (
+            out[:40], [l for l in LANGS if cnt[l] == max(cnt.values())])
+    if k == 'thd':
+        txt, pw = text(t[2]), text(t[3])
+        words = text_words(txt)
+        if bip39_entropy(idx_in(t[1], words), strict=True) is None:
+            if out.startswith('ERR') or bip39_entropy(idx_in('english', words), strict=True) is not None:
+                return None
+            return 'HDKey.from_passphrase accepted an invalid sentence'
+        seed = bip39_seed(txt, pw)
+        i = master_of_seed(seed)
+        q = out.split(' ')
+        if q[0] != i.hex():
+            return 'HDKey.from_passphrase: %s, BIP39+BIP32 master %s' % (out[:40], i.hex()[:40])
+        want = ['bitcoin', 'bip32', '1', 'segwit', '0'] if t[4] == 'd' else [t[4], t[5], t[6], t[7], t[8]]
+        if q[1:6] != want:
+            return 'HDKey.from_passphrase arguments not passed on: asked %s, key has %s' % (want, q[1:6])
+        if want == ['bitcoin', 'bip32', '1', 'legacy', '0'] and q[6] != xprv_of_seed(seed):
+            return 'HDKey.from_passphrase: master xprv %s, BIP32 %s' % (q[6][:30], xprv_of_seed(seed)[:30])
+        return None
+    return None
+
+
 def prop_check(c, out):
-    t = c.req.split(' ')
+    if not c.req.startswith('seq '):
+        return check_one(c.req.split(' '), out)
+    subs, outs = subrequests(c.req), out.split(' | ')
+    if len(subs) != len(outs):
+        return 'unexpected answer %r' % out[:120]
+    for i, (q, o) in enumerate(zip(subs, outs)):
+        v = check_one(q, o)
+        if v is not None:
+            return 'call %d of the session (%s ...): %s' % (i + 1, ' '.join(q[:3]), v)
+    return None
+
+
+FROZEN_FILES = ','.join(LANGS)
+
+
+def check_one(t, out):
+    t = _lang_default(t)
     k = t[0]
     if out.startswith('CRASH') or out == 'BADREQ' or out.startswith('NOTBYTES'):
         return 'unexpected answer %r' % out[:120]
+    if k == 'wlfiles':
+        return None if out == FROZEN_FILES else 'bundled word-list files are %s, BIP39 set frozen here: %s' % (out, FROZEN_FILES)
     if k == 'wlfacts':
-        return None if out == '2048 2048 1 1 1' else 'word list %s: (length, distinct, NFKD, served-as-file, clean) = %s' % (t[1], out)
+        return None if out == '2048 2048 1 1 1' else ('word list %s differs from the frozen BIP39 list: (length, distinct, NFKD, '
+                                                       'equal-to-frozen, clean) = %s' % (t[1], out))
+    if k in ('tmn', 'tgen', 'tent', 'tseed', 'tsan', 'tdet', 'thd'):
+        return check_text(t, out)
     # change_base keeps the value (the exact digit count is the model's business)
     if k in ('cb10_2', 'cb256_2'):
         if out.startswith('ERR'):
@@ -465,7 +1078,12 @@ def prop_check(c, out):
 
 
 def _hexlike_case(c):
-    t = c.req.split(' ')
+    t = _lang_default(c.req.split(' '))
+    if t[0] == 'tmn' and t[4] == 'b':
+        return py_fromhex(unhx(t[5])) is not None
+    if t[0] == 'tent' and t[2] != '0':
+        e = bip39_entropy(idx_in(t[1], text_words(text(t[4]))), strict=False)
+        return e is not None and py_fromhex(e) is not None
     if t[0] in ('mn', 'mnhex', 'mncurve', 'gen'):
         e = _entropy_of_req(t)
         return py_fromhex(e) is not None
@@ -477,6 +1095,8 @@ def _hexlike_case(c):
 
 def _non_english_hdkey(c):
     t = c.req.split(' ')
+    if t[0] == 'thd' and t[1] != 'english':
+        return any(pos('english', w) < 0 for w in text_words(text(t[2])))
     if t[0] != 'hdkey' or t[1] == 'english':
         return False
     return any(wl(t[1])[i] not in wl('english') for i in zs(t[2]))
